@@ -9,4 +9,14 @@ PROPS = {
         ],
         "explanation": "Theorems over every size n=2^k (any k), both layouts, all flags and transport answers about the executable layout model; the model is compared event-for-event with VirtQueue::new + drop on the exhaustive configuration grid, and an independent oracle checks alignment, containment, disjointness, direction and zero-fill on the real memory.",
     },
+    "C20": {
+        "modules": ["VirtioVerif.Props.C20"],
+        "assumptions": [
+            "the split-virtqueue core is abstracted by Model/CmdQueue.lean (add returns a token; the device completes outstanding chains in any order with any bytes; pop_used only in used-ring order) - its refinement by queue.rs is the subject of C01-C05",
+            "the device is the environment: a universally quantified function from requests to response bytes / a universally quantified completion schedule",
+            "Hal contract: dma_alloc returns non-aliasing page-aligned memory; share/unshare bounce (the ledger HAL poisons device-writable bounce buffers with 0xA5, which the model takes as the initial content of response buffers)",
+        ],
+        "explanation": "Byte-level encoders of every GPU/sound/rng/rtc/9p request proved against structure tables written from the VirtIO specification for all parameter values; sequencing machines of the multi-command operations; response checking for all type values; GPU backing lifetime invariant; PCM chunking and in-order delivery; EDID parser equal to a specification-level decode for every blob. The models are compared request-for-request with the real drivers running against reference devices that decode every chain by the specification.",
+        "timeout": {"quick": 600, "thorough": 3000},
+    },
 }
